@@ -68,7 +68,7 @@ def load_known():
                 continue
             if line.startswith("known:"):
                 body = line[len("known:"):].strip()
-                head, _, what = body.partition("::")
+                head, _, what = body.partition(" :: ")
                 parts = head.split()
                 prop = None
                 key = []
